@@ -896,6 +896,16 @@ def check_C04(tier, seed):
     for i, (da, db) in enumerate([([(0, 0), (0, 1)], [(0, 1), (0, 0)]), ([(0, 2), (1, 0), (1, 1)], [(1, 2), (0, 0), (1, 1)]), ([(1, 0), (0, 0)], [(0, 0), (1, 0)]), ([(0, 3), (0, 1), (0, 2)], [(0, 1), (0, 2), (0, 3)])]):
         for j, d_ in enumerate((da, db, da)):
             cases.append({"id": "anagram-%d-%d" % (i, j), "family": "bind-groups-anagram-sources", "S": F.bgd_shader([{"g": g, "b": b} for g, b in d_], use=True), "opts": F.opts()})
+    # more groups than decimal digits (generated item names BindGroup10, BindGroup11 sort before BindGroup2 as text), declared in shuffled order
+    for i, ng in enumerate((11, 12, 13)):
+        decls = [(g, b) for g in range(ng) for b in ((0,) if g % 3 else (1, 0))]
+        rng.shuffle(decls)
+        cases.append({"id": "many-%d" % ng, "family": "bind-groups-more-than-ten", "S": F.bgd_shader([{"g": g, "b": b} for g, b in decls], use=True), "opts": F.opts()})
+    # the same declaration sequences with the validator on and only some variables used (the validator knows which)
+    for i, e in enumerate(okseq[:(40 if quick else 400)]):
+        S = F.bgd_shader(e["decls"], use=True)
+        S["entries"][0]["body"] = S["entries"][0]["body"][::2]
+        cases.append({"id": "seqv-%05d" % i, "family": "bind-groups-exported-validated-partly-used", "S": S, "opts": F.opts(validate="all")})
     want = {"bindgroups"}
     compiled_and_judge(rep, "C04", cases, "exported", "shim", want, keep=["groups"])
     # operation sequences explored by TLC over the API state machine, replayed on the compiled module
